@@ -961,3 +961,74 @@ func (t *Term) SConstVal() (int64, bool) {
 }
 
 var _ = bits.Len
+
+// Rebuild constructs a term with the operator of t over new arguments (through the simplifying
+// constructors).
+func (tm *TermManager) Rebuild(t *Term, args []*Term) *Term {
+	switch t.op {
+	case OpConst, OpVar:
+		return t
+	case OpNot:
+		return tm.Not(args[0])
+	case OpAnd:
+		return tm.And(args...)
+	case OpOr:
+		return tm.Or(args...)
+	case OpIte:
+		return tm.Ite(args[0], args[1], args[2])
+	case OpEq:
+		return tm.Eq(args[0], args[1])
+	case OpAdd, OpSub, OpMul, OpUDiv, OpURem, OpSDiv, OpSRem, OpBAnd, OpBOr, OpBXor, OpShl, OpLShr, OpAShr:
+		return tm.bin(t.op, args[0], args[1])
+	case OpBNot:
+		return tm.BNot(args[0])
+	case OpNeg:
+		return tm.Neg(args[0])
+	case OpUlt, OpUle, OpSlt, OpSle:
+		return tm.cmp(t.op, args[0], args[1])
+	case OpZExt:
+		return tm.ZExt(args[0], t.w)
+	case OpSExt:
+		return tm.SExt(args[0], t.w)
+	case OpExtract:
+		return tm.Extract(args[0], t.hi, t.lo)
+	case OpConcat:
+		return tm.Concat(args[0], args[1])
+	case OpSelect:
+		return tm.Select(t.name, args[0])
+	case OpUF:
+		return tm.UF(t.name, t.w, args...)
+	}
+	panic("Rebuild: unsupported op")
+}
+
+// RenameArrays returns t with every read of an array in names redirected to the array
+// name+suffix.
+func (tm *TermManager) RenameArrays(t *Term, names map[string]bool, suffix string, memo map[*Term]*Term) *Term {
+	if r, ok := memo[t]; ok {
+		return r
+	}
+	var r *Term
+	if len(t.args) == 0 {
+		r = t
+	} else {
+		args := make([]*Term, len(t.args))
+		changed := false
+		for i, a := range t.args {
+			args[i] = tm.RenameArrays(a, names, suffix, memo)
+			if args[i] != a {
+				changed = true
+			}
+		}
+		switch {
+		case t.op == OpSelect && names[t.name]:
+			r = tm.Select(t.name+suffix, args[0])
+		case changed:
+			r = tm.Rebuild(t, args)
+		default:
+			r = t
+		}
+	}
+	memo[t] = r
+	return r
+}
